@@ -4,7 +4,8 @@
 //! has no effect unless a harness arms it (budgets default to "unlimited", logs and observers
 //! default to "off"), so enabling the feature does not change the behaviour of the library.
 //!
-//! * step counters with per-thread budgets in the loops that have no other progress measure,
+//! * step counters with per-thread budgets in the loops that have no other progress measure
+//!   (including every loop of the splay tree),
 //! * branch hit counters, so that a harness can show which code its workload went through,
 //! * a log of segment divisions (requested point, point actually used, left/right swap),
 //! * an observer that receives the processed event and an in-order snapshot of the sweep line
@@ -87,8 +88,11 @@ pub enum Loop {
     ContourStep = 2,
     /// iterations of `get_next_pos`
     NextPos = 3,
+    /// iterations of any loop of the splay tree (splay, successor / predecessor search, min / max, the
+    /// rotations of the consuming iterator, the iterative teardown)
+    SplayStep = 4,
 }
-pub const LOOP_NAMES: [&str; 4] = ["sweep", "bubble-pass", "contour-step", "next-pos"];
+pub const LOOP_NAMES: [&str; 5] = ["sweep", "bubble-pass", "contour-step", "next-pos", "splay-step"];
 
 /// One call of `divide_segment`, coordinates widened to f64.
 #[derive(Clone, Copy, Debug, PartialEq)]
@@ -103,8 +107,8 @@ pub struct Division {
 
 thread_local! {
     static HITS: RefCell<Vec<u64>> = RefCell::new(vec![0; N_SITES]);
-    static STEPS: Cell<[u64; 4]> = const { Cell::new([0; 4]) };
-    static BUDGET: Cell<[u64; 4]> = const { Cell::new([u64::MAX; 4]) };
+    static STEPS: Cell<[u64; 5]> = const { Cell::new([0; 5]) };
+    static BUDGET: Cell<[u64; 5]> = const { Cell::new([u64::MAX; 5]) };
     static DIVISIONS: RefCell<Option<Vec<Division>>> = const { RefCell::new(None) };
     static OBSERVER: Cell<(*mut (), &'static str)> = const { Cell::new((std::ptr::null_mut(), "")) };
 }
@@ -135,7 +139,7 @@ pub fn set_budget(which: Loop, max_steps: u64) {
 }
 
 pub fn reset_steps() {
-    STEPS.with(|s| s.set([0; 4]));
+    STEPS.with(|s| s.set([0; 5]));
 }
 
 pub fn steps(which: Loop) -> u64 {
